@@ -203,6 +203,11 @@ func (e *Engine) explore(harness string, cfg ExploreCfg) *Summary {
 		return sum
 	}
 	t0 := time.Now()
+	// a path still running this long after the budget ran out is cut at its next solver query
+	var deadline time.Time
+	if cfg.Budget > 0 {
+		deadline = t0.Add(cfg.Budget + cfg.Budget/4)
+	}
 	var mu sync.Mutex
 	cond := sync.NewCond(&mu)
 	stack := [][]Decision{cfg.Prefix}
@@ -244,7 +249,7 @@ func (e *Engine) explore(harness string, cfg ExploreCfg) *Summary {
 				if e.cpuSem != nil {
 					e.cpuSem <- struct{}{}
 				}
-				res := e.runPath(fn, harness, job, pf, cfg.Concrete, cfg.ConcretePicks)
+				res := e.runPath(fn, harness, job, pf, cfg.Concrete, cfg.ConcretePicks, deadline)
 				if e.cpuSem != nil {
 					<-e.cpuSem
 				}
@@ -310,6 +315,17 @@ func (e *Engine) explore(harness string, cfg ExploreCfg) *Summary {
 					}
 					stop = true
 				}
+				nv := 0
+				for _, n := range vioSeen {
+					nv += n
+				}
+				if nv >= 200 && !cfg.SinglePath && (len(stack) > 0 || active > 0) {
+					// the verdict is settled; more paths only repeat it
+					if !stop {
+						sum.Incomplete = append(sum.Incomplete, fmt.Sprintf("stopped after %d violating obligations with %d prefixes left", nv, len(stack)))
+					}
+					stop = true
+				}
 				if cfg.Budget > 0 && time.Since(t0) > cfg.Budget && (len(stack) > 0 || active > 0) {
 					if !stop {
 						sum.Incomplete = append(sum.Incomplete, fmt.Sprintf("time budget %s exhausted with %d prefixes left", cfg.Budget, len(stack)))
@@ -333,8 +349,8 @@ func firstPos(p string) string {
 	return p
 }
 
-func (e *Engine) runPath(fn *ssa.Function, harness string, prefix []Decision, pf *Portfolio, concrete *Model, cpicks []int) *PathResult {
-	r := &Run{eng: e, harness: harness, ctx: NewTermCtx(), pcSet: map[int]bool{}, prefix: prefix, solver: pf,
+func (e *Engine) runPath(fn *ssa.Function, harness string, prefix []Decision, pf *Portfolio, concrete *Model, cpicks []int, deadline time.Time) *PathResult {
+	r := &Run{deadline: deadline, eng: e, harness: harness, ctx: NewTermCtx(), pcSet: map[int]bool{}, prefix: prefix, solver: pf,
 		globals: map[interface{}]*Slot{}, delayBound: 0, concrete: concrete, concretePicks: cpicks,
 		timersBySlot: map[*Slot]*Timer{}, uniq: map[string]*Slot{}}
 	r.res = &PathResult{Outcome: "ok", Covers: map[string]*CoverSample{}, Assumptions: map[string]bool{}}
